@@ -228,6 +228,18 @@ func (p *vpIdP) snapshotCalls() []vpIdPCall {
 	return append([]vpIdPCall(nil), p.calls...)
 }
 
+func (p *vpIdP) countCallsOutcome(ep, outcome string, _ interface{}) int {
+	p.mu.Lock()
+	defer p.mu.Unlock()
+	n := 0
+	for _, c := range p.calls {
+		if c.Endpoint == ep && c.Outcome == outcome {
+			n++
+		}
+	}
+	return n
+}
+
 func (p *vpIdP) countCalls(ep string) int {
 	p.mu.Lock()
 	defer p.mu.Unlock()
